@@ -55,41 +55,50 @@ theorem utf8_units_partition (bs : List Nat) :
 
 /-! ## The reading side of the source -/
 
-/-- **The bodies of `readRune`, `print` and `emit` in ansi/parser.go are the ones the model
-    transcribes** (regenerated on this run, statement by statement): `ReadRune`; stop the timer; the
-    raw-byte fallback under exactly `r == ReplacementChar && size == 1` (the same flag the model's
-    `readRune` reads from `Gen.ParserTable`); error ⇒ `eof`; — the builder, the look-ahead loop
-    `for p.r.Buffered() > 0 { ReadRune; if invalid byte { UnreadRune; break }; WriteRune;
-    FirstGraphemeClusterInString; if rest != "" { UnreadRune; break } }` (F102d repaired: an invalid
-    byte is left to `readRune`; the flag the model's `printLoop` reads), the width, the `Print`; —
-    one channel send.  No statement outside the vocabulary. -/
+/-- **Every statement of `readRune`, `print` and `emit` in ansi/parser.go was recognised** by the
+    extractor on this run: nothing outside the vocabulary of `Model/ParserReaderSk.lean` (no `.unknown`
+    statement in a regenerated body, nothing listed as unrecognised); `emit` is exactly one channel
+    send; the raw-byte fallback of `readRune` is under `r == ReplacementChar && size == 1` and the
+    look-ahead of `print` stops in front of an invalid byte (the two flags the model's `readRune` /
+    `printLoop` read).  *What the bodies compute* is not pinned here against a copy of the statement
+    lists — `readRune_body_eq_model` and `print_body_eq_model` prove it by interpreting them. -/
 theorem reader_skeleton_recognised :
-    Gen.ParserReader.readRuneBody = Model.ParserReaderSk.handReadRune Gen.ParserTable.fallbackOnlyInvalid ∧
-    Gen.ParserReader.printBody = Model.ParserReaderSk.handPrint ∧
-    Gen.ParserReader.emitBody = Model.ParserReaderSk.handEmit ∧
-    Gen.ParserReader.unrecognised = [] ∧ Gen.ParserTable.fallbackOnlyInvalid = true ∧
+    Gen.ParserReader.unrecognised = [] ∧
+    Gen.ParserReader.readRuneBody.all Model.ParserReaderSk.RStmt.known = true ∧
+    Gen.ParserReader.printBody.all Model.ParserReaderSk.RStmt.known = true ∧
+    Gen.ParserReader.emitBody = [.sendSeq] ∧
+    Gen.ParserTable.fallbackOnlyInvalid = true ∧
     Gen.ParserTable.lookaheadStopsAtInvalid = true := by decide
 
 /-! ## The regenerated bodies, executed -/
 
-open VaxisModel.Model.ParserReaderInterp in
+open VaxisModel.Model.ParserReaderInterp VaxisModel.Lemmas.ParserReaderInterp in
 /-- **`readRune` as the source says it = the model's `readRune`** — the body regenerated from
     ansi/parser.go on this run, *interpreted* statement by statement over the reader model
     (`ReadRune` = fill loop + `utf8.DecodeRune`; stop the timer; `if r == ReplacementChar && size == 1
     { UnreadRune; ReadByte; r = rune(b) }` with both error returns; `if err != nil { return eof }`;
     `return r`), gives for **every** reader state (any buffer contents, any reads still to come)
     exactly what `ParserIO.readRune` — the function all theorems about the reading side are stated
-    over — gives.  (Proved through the skeleton the model transcribes, so any change of the statement
-    list is flagged here; the correspondence driver *executes* whatever was extracted, so a change
-    that keeps the meaning keeps the correspondence run clean, one that does not — a changed
-    condition, a missing `UnreadRune` — shows there as well.) -/
+    over — gives.  The proof evaluates the interpreter on whatever statement list was regenerated
+    (no copy of the list is compared): a reordering that the interpreter evaluates to the same
+    function keeps it, a change of meaning — a changed condition, a missing `UnreadRune` — breaks it. -/
 theorem readRune_body_eq_model (rd : Rd) :
     readRuneI Gen.ParserReader.readRuneBody rd = some (readRune rd) := by
-  have h : Gen.ParserReader.readRuneBody = Model.ParserReaderSk.handReadRune true := by decide
-  rw [h]
-  exact VaxisModel.Lemmas.ParserReaderInterp.readRuneI_hand rd
+  cases hb : rd.fill.buf with
+  | nil =>
+    simp only [readRuneI, Gen.ParserReader.readRuneBody, interpRead, readRuneB_nil ⟨rd, none⟩ hb, readRune, hb]
+    simp [runeError]
+  | cons b0 brest =>
+    simp only [readRuneI, Gen.ParserReader.readRuneBody, interpRead, readRuneB_cons ⟨rd, none⟩ b0 brest hb, readRune, hb,
+      fallback_flag]
+    by_cases hc : (decodeRune (b0 :: brest)).1 = runeError ∧ (decodeRune (b0 :: brest)).2 = 1
+    · simp [hc.1, hc.2, unreadRuneB, readByteB, hb]
+    · have hc' : (decodeRune (b0 :: brest)).1 = runeError → ¬ (decodeRune (b0 :: brest)).2 = 1 := fun h1 h2 => hc ⟨h1, h2⟩
+      by_cases h1 : (decodeRune (b0 :: brest)).1 = runeError
+      · simp [h1, hc' h1]
+      · simp [h1]
 
-open VaxisModel.Model.ParserReaderInterp in
+open VaxisModel.Model.ParserReaderInterp VaxisModel.Lemmas.ParserReaderInterp in
 /-- **`print` as the source says it = the model's `printLoop`, with its width.**  The regenerated
     body of `print(r)` interpreted over the reader model — builder, `for p.r.Buffered() > 0 { ReadRune;
     invalid byte ⇒ UnreadRune, break; WriteRune; FirstGraphemeClusterInString; rest ≠ "" ⇒ UnreadRune,
@@ -97,14 +106,45 @@ open VaxisModel.Model.ParserReaderInterp in
     state, every rune, every cluster length `cl ≥ 1` the oracle reports and any width functions:
     the grapheme emitted and the reader afterwards are `printLoop cl fuel rd [r]`, and the width is
     either `StringWidth` of that grapheme or the non-zero width `FirstGraphemeClusterInString`
-    reported for exactly that grapheme. -/
+    reported for exactly that grapheme.  The proof evaluates the interpreter on the three parts of
+    whatever was regenerated (statements before the loop, one pass through the loop body in each of
+    its three outcomes, statements after the loop) and hands the results to the generic induction
+    `interpPrint_sem`; no copy of the statement list is compared. -/
 theorem print_body_eq_model (cl : Nat) (hcl : 1 ≤ cl) (wd sw : List Rune → Nat) (fuel : Nat) (r : Rune) (rd : Rd) :
     ∃ w, interpPrint cl wd sw fuel r Gen.ParserReader.printBody rd =
         some ((printLoop cl fuel rd [r]).1, w, (printLoop cl fuel rd [r]).2) ∧
       (w = sw (printLoop cl fuel rd [r]).1 ∨ (w = wd (printLoop cl fuel rd [r]).1 ∧ w ≠ 0)) := by
-  have h : Gen.ParserReader.printBody = Model.ParserReaderSk.handPrint := by decide
-  rw [h]
-  exact VaxisModel.Lemmas.ParserReaderInterp.interpPrint_hand cl hcl wd sw fuel r rd
+  -- the body has a `for p.r.Buffered() > 0 { … }`
+  have hs : (splitWhile Gen.ParserReader.printBody).isNone = false := by decide
+  -- the statements in front of the loop
+  have hpre : PreOk (preOf Gen.ParserReader.printBody) := by
+    intro r rd
+    simp [preOf, splitWhile, splitAtStmt, Gen.ParserReader.printBody, prePhase]
+  -- one pass through the loop body
+  have hloop : LoopPass cl wd (loopOf Gen.ParserReader.printBody) := by
+    intro st b0 t hfb hacc hlen
+    have hrb := readRuneB_cons st.b b0 t hfb
+    generalize (decodeRune (b0 :: t)).1 = r' at hrb ⊢
+    generalize (decodeRune (b0 :: t)).2 = sz at hrb ⊢
+    by_cases hinv : r' = runeError ∧ sz = 1
+    · simp [loopOf, splitWhile, splitAtStmt, Gen.ParserReader.printBody, loopBody, hrb, hinv.1, hinv.2, unreadRuneB]
+    · simp only [if_neg hinv]
+      by_cases hcl' : st.grapheme.length + 1 > cl
+      · have heq : cl = st.grapheme.length := by omega
+        have htake : (st.grapheme ++ [r']).take cl = st.grapheme := by
+          rw [heq]; exact List.take_left' rfl
+        simp only [if_pos hcl']
+        simp [loopOf, splitWhile, splitAtStmt, Gen.ParserReader.printBody, loopBody, hrb, hinv, unreadRuneB, hacc, htake, hcl']
+      · have htake : (st.grapheme ++ [r']).take cl = st.grapheme ++ [r'] := by
+          apply List.take_of_length_le; simp; omega
+        simp only [if_neg hcl']
+        simp [loopOf, splitWhile, splitAtStmt, Gen.ParserReader.printBody, loopBody, hrb, hinv, hacc, htake, hcl']
+  -- the statements after the loop
+  have hpost : PostOk sw (postOf Gen.ParserReader.printBody) := by
+    intro st
+    by_cases hw : st.w = 0 <;>
+      simp [postOf, splitWhile, splitAtStmt, Gen.ParserReader.printBody, postPhase, hw]
+  exact interpPrint_sem Gen.ParserReader.printBody cl hcl wd sw hs hpre hloop hpost fuel r rd
 
 open VaxisModel.Model.ParserReaderInterp in
 /-- **Each Print carries the display width of its grapheme.**  If the width uniseg reports for a
